@@ -218,18 +218,20 @@ var harmlessEdits = map[string][]edit{
 
 // changes of behaviour: the translator must fail or emit something else
 var harmfulEdits = map[string][]edit{
-	"rule words swapped":        {{srcPolicy, "args = append(args, \"-j\", \"ACCEPT\")", "args = append(args, \"ACCEPT\", \"-j\")"}},
-	"nomatch option":            {{srcPolicy, `Options: []string{"nomatch"}`, `Options: []string{"nomatch2"}`}},
-	"handler order":             {{srcEvent, "p.syncNetworkPolices()\n\tp.syncPods()\n\tp.syncNetworkPolicyRules()", "p.syncNetworkPolices()\n\tp.syncNetworkPolicyRules()\n\tp.syncPods()"}},
-	"default egress":            {{srcPolicy, "egress = len(np.Spec.Egress) > 0", "egress = true"}},
-	"rekey guard dropped":       {{srcPolicy, "if newEntryKeys.Has(parts[0]) {", "if false && newEntryKeys.Has(parts[0]) {"}},
-	"chunk size":                {{srcPolicy, "const maxMultiportPorts = 15", "const maxMultiportPorts = 16"}},
-	"shared args across chunks": {{srcPolicy, "\t\t\tfor i := 0; i < len(udpPorts); i += maxMultiportPorts {\n\t\t\t\tend := i + maxMultiportPorts\n\t\t\t\tif end > len(udpPorts) {\n\t\t\t\t\tend = len(udpPorts)\n\t\t\t\t}\n\t\t\t\targs := []string{\n\t\t\t\t\t\"-A\", policyChainName,\n\t\t\t\t\t\"-m\", \"comment\", \"--comment\", policyNameComment,\n\t\t\t\t\t\"-p\", \"udp\",\n\t\t\t\t}\n", "\t\t\targs := []string{\n\t\t\t\t\"-A\", policyChainName,\n\t\t\t\t\"-m\", \"comment\", \"--comment\", policyNameComment,\n\t\t\t\t\"-p\", \"udp\",\n\t\t\t}\n\t\t\tfor i := 0; i < len(udpPorts); i += maxMultiportPorts {\n\t\t\t\tend := i + maxMultiportPorts\n\t\t\t\tif end > len(udpPorts) {\n\t\t\t\t\tend = len(udpPorts)\n\t\t\t\t}\n"}},
-	"peer precedence":           {{srcPolicy, "if peer.PodSelector != nil {\n\t\treturn p.podSelectorToTable(peer.PodSelector, v1.NamespaceAll)\n\t}\n\tif peer.NamespaceSelector != nil {\n\t\treturn p.namespaceSelectorToTable(peer.NamespaceSelector)\n\t}", "if peer.NamespaceSelector != nil {\n\t\treturn p.namespaceSelectorToTable(peer.NamespaceSelector)\n\t}\n\tif peer.PodSelector != nil {\n\t\treturn p.podSelectorToTable(peer.PodSelector, v1.NamespaceAll)\n\t}"}},
-	"namespace filter dropped":  {{srcPolicy, "if policy.np.Namespace != pod.Namespace {\n\t\t\tcontinue\n\t\t}\n\t\tpodLabelSelector, err :=", "podLabelSelector, err :="}},
-	"pod batch before base":     {{srcPolicy, "if pod.Status.PodIP == \"\" {\n\t\treturn nil\n\t}\n\tif err := p.ensureBasicChain(); err != nil {\n\t\treturn err\n\t}", "if err := p.ensureBasicChain(); err != nil {\n\t\treturn err\n\t}\n\tif pod.Status.PodIP == \"\" {\n\t\treturn nil\n\t}"}},
-	"syncRules behind a guard":  {{srcPolicy, "if err := p.syncRules(policies); err != nil {", "if len(policies) == 0 {\n\t\treturn\n\t}\n\tif err := p.syncRules(policies); err != nil {"}},
-	"src and dst sets swapped":  {{srcPolicy, "\"-m\", \"set\", \"--match-set\", srcTableName, \"src\",\n\t\t\t\t\"-m\", \"set\", \"--match-set\", dstTableName, \"dst\"}", "\"-m\", \"set\", \"--match-set\", dstTableName, \"src\",\n\t\t\t\t\"-m\", \"set\", \"--match-set\", srcTableName, \"dst\"}"}},
+	"rule words swapped":             {{srcPolicy, "args = append(args, \"-j\", \"ACCEPT\")", "args = append(args, \"ACCEPT\", \"-j\")"}},
+	"nomatch option":                 {{srcPolicy, `Options: []string{"nomatch"}`, `Options: []string{"nomatch2"}`}},
+	"handler order":                  {{srcEvent, "p.syncNetworkPolices()\n\tp.syncPods()\n\tp.syncNetworkPolicyRules()", "p.syncNetworkPolices()\n\tp.syncNetworkPolicyRules()\n\tp.syncPods()"}},
+	"default egress":                 {{srcPolicy, "egress = len(np.Spec.Egress) > 0", "egress = true"}},
+	"rekey guard dropped":            {{srcPolicy, "if newEntryKeys.Has(parts[0]) {", "if false && newEntryKeys.Has(parts[0]) {"}},
+	"chunk size":                     {{srcPolicy, "const maxMultiportPorts = 15", "const maxMultiportPorts = 16"}},
+	"shared args across chunks":      {{srcPolicy, "\t\t\tfor i := 0; i < len(udpPorts); i += maxMultiportPorts {\n\t\t\t\tend := i + maxMultiportPorts\n\t\t\t\tif end > len(udpPorts) {\n\t\t\t\t\tend = len(udpPorts)\n\t\t\t\t}\n\t\t\t\targs := []string{\n\t\t\t\t\t\"-A\", policyChainName,\n\t\t\t\t\t\"-m\", \"comment\", \"--comment\", policyNameComment,\n\t\t\t\t\t\"-p\", \"udp\",\n\t\t\t\t}\n", "\t\t\targs := []string{\n\t\t\t\t\"-A\", policyChainName,\n\t\t\t\t\"-m\", \"comment\", \"--comment\", policyNameComment,\n\t\t\t\t\"-p\", \"udp\",\n\t\t\t}\n\t\t\tfor i := 0; i < len(udpPorts); i += maxMultiportPorts {\n\t\t\t\tend := i + maxMultiportPorts\n\t\t\t\tif end > len(udpPorts) {\n\t\t\t\t\tend = len(udpPorts)\n\t\t\t\t}\n"}},
+	"peer precedence":                {{srcPolicy, "if peer.PodSelector != nil {\n\t\treturn p.podSelectorToTable(peer.PodSelector, v1.NamespaceAll)\n\t}\n\tif peer.NamespaceSelector != nil {\n\t\treturn p.namespaceSelectorToTable(peer.NamespaceSelector)\n\t}", "if peer.NamespaceSelector != nil {\n\t\treturn p.namespaceSelectorToTable(peer.NamespaceSelector)\n\t}\n\tif peer.PodSelector != nil {\n\t\treturn p.podSelectorToTable(peer.PodSelector, v1.NamespaceAll)\n\t}"}},
+	"namespace filter dropped":       {{srcPolicy, "if policy.np.Namespace != pod.Namespace {\n\t\t\tcontinue\n\t\t}\n\t\tpodLabelSelector, err :=", "podLabelSelector, err :="}},
+	"pod batch before base":          {{srcPolicy, "if pod.Status.PodIP == \"\" {\n\t\treturn nil\n\t}\n\tif err := p.ensureBasicChain(); err != nil {\n\t\treturn err\n\t}", "if err := p.ensureBasicChain(); err != nil {\n\t\treturn err\n\t}\n\tif pod.Status.PodIP == \"\" {\n\t\treturn nil\n\t}"}},
+	"syncRules behind a guard":       {{srcPolicy, "if err := p.syncRules(policies); err != nil {", "if len(policies) == 0 {\n\t\treturn\n\t}\n\tif err := p.syncRules(policies); err != nil {"}},
+	"hooks found by the pod comment": {{srcPolicy, "if err := p.deletePodRuleByKeyword(pod, ingressChain, string(podChain)); err != nil {", "if err := p.deletePodRuleByKeyword(pod, ingressChain, pod.Name+\"_\"+pod.Namespace); err != nil {"}},
+	"every matching hook deleted":    {{srcPolicy, "\t\t\tpodLine = lines[i]\n\t\t\tbreak\n", "\t\t\tpodLine = lines[i]\n"}},
+	"src and dst sets swapped":       {{srcPolicy, "\"-m\", \"set\", \"--match-set\", srcTableName, \"src\",\n\t\t\t\t\"-m\", \"set\", \"--match-set\", dstTableName, \"dst\"}", "\"-m\", \"set\", \"--match-set\", dstTableName, \"src\",\n\t\t\t\t\"-m\", \"set\", \"--match-set\", srcTableName, \"dst\"}"}},
 }
 
 func TestTranslatorHarmless(t *testing.T) {
